@@ -433,8 +433,14 @@ class Unit:
                 cname = "m:" + n["name"]
             elif n["k"] == "call" and ("c:" + n["path"]) in self.ghost_callees:
                 cname = "c:" + n["path"]
+            if cname is not None and isinstance(self.ghost_callees[cname], tuple):
+                garg, rx = self.ghost_callees[cname]
+                if not re.search(rx, src.text(*n["recv"])):
+                    cname = None
             if cname is not None:
                 garg = self.ghost_callees[cname]
+                if isinstance(garg, tuple):
+                    garg = garg[0]
                 pos = n["close"]
                 sep = "" if (n["nargs"] == 0 or n["trailing"]) else ", "
                 eds.append((pos, pos, sep + garg, None))
